@@ -198,6 +198,8 @@ def run(ctx, which):
         k = (r["T"], str(wire_to_int(r["N"])), str(wire_to_int(r["D"])), str(wire_to_int(r["x"])), r["cfg"])
         if k not in badkeys:
             raise core.ToolError("comparator mismatch not confirmed by TLC (comparator bug?): %s" % json.dumps(r))
+    if which == "C04":
+        float_clause(ctx, cfgs)
     for r in recs[:3]:
         ctx.sample({"T": r["T"], "N": wire_to_int(r["N"]), "D": wire_to_int(r["D"]), "x": wire_to_int(r["x"]),
                     "ovf": r["ovf"], "trunc": r["trunc"], "lossy": r["lossy"], "res": wire_to_int(r["res"]), "ub": r["ub"]})
@@ -208,3 +210,43 @@ def run(ctx, which):
                         "predicted_non_compiling_skipped": len(skipped), "dropped_non_compiling": len(dropped),
                         "exhaustive_8_16_bit": True}
     ctx.exhaustive = False
+
+
+FLOAT_FACTORS = {
+    "quick": [("3", "1"), ("1", "3"), ("1000", "1"), ("1", "1000"), ("5", "9"), ("9", "5"), ("1143", "1250"), ("1024", "1"), ("1", "1024"), ("1", "1")],
+    "thorough": [("3", "1"), ("1", "3"), ("1000", "1"), ("1", "1000"), ("5", "9"), ("9", "5"), ("1143", "1250"), ("1024", "1"), ("1", "1024"), ("1", "1"),
+                 ("7", "1"), ("10", "1"), ("1", "10"), ("1000000000", "1"), ("1", "1000000000"), ("25", "9"), ("127", "128"), ("1001", "1000"),
+                 ("18446744073709551557", "3"), ("3", "18446744073709551557"), ("3600", "1"), ("1", "3600"), ("254", "100"), ("100", "254")],
+}
+
+
+def float_clause(ctx, cfgs):
+    """C04, floating reps: same-rep will_conversion_overflow on f32/f64/f80 around max/factor (nextafter chains),
+    specials and random values; judged by TLC with exact values (CastBig.tla VerdictSameF)."""
+    insts = [{"S": t, "T": t, "N": n, "D": d} for t in ("f32", "f64", "f80") for (n, d) in FLOAT_FACTORS[ctx.tier]]
+
+    def make_src(b):
+        lines = ['#include "cast_sweep.hh"', "int main(int argc, char **argv) {", "  auv::COpts o = auv::parse_copts(argc, argv);"]
+        for c in b:
+            lines.append('  auv::sweep_f<%s, %s, %sULL, %sULL>(o);' % (CXX_T[c["S"]], CXX_T[c["T"]], c["N"], c["D"]))
+        return "\n".join(lines + ["  return 0;", "}"]) + "\n"
+    groups = {}
+    for c in insts:
+        groups.setdefault(c["S"], []).append(c)
+    args = ["--seed", str(ctx.seed), "--nrandom", "200" if ctx.tier == "quick" else "4000", "--fchain", "6" if ctx.tier == "quick" else "16"]
+    recs, dropped, nprog = core.harness_farm(ctx, groups, make_src, cfgs, args, batch=5, tag="convf")
+    if dropped:
+        raise core.ToolError("floating conversion harness does not compile: %s" % (dropped[0][2],))
+    obs = [r for r in recs if r["k"] == "castf"]
+    nval, bad = ctx.tlc_batch_validate("Trace_ConvF.tla", obs, name="convf")
+    ctx.evaluations += len(obs)
+    ctx.nontrivial += sum(s["nontrivial"] for s in recs if s["k"] == "sumf" and s["cfg"] == cfgs[0])
+    for b in bad:
+        r, v = b["rec"], b["v"]
+        key = {"call": "will_conversion_overflow", "T": r["T"], "N": str(wire_to_int(r["N"])), "D": str(wire_to_int(r["D"])), "x": core.fval(r["x"])}
+        ctx.violation(key, "will_conversion_overflow(%s x=%s, factor %s/%s) = %d, product=%s; spec: exceeds-max=%s safely-below=%s" % (
+            r["T"], key["x"], key["N"], key["D"], r["ovf0"], core.fval(r["y"]), v["exceeds"], v["safely"]), detail=b)
+    if obs:
+        r = obs[len(obs) // 2]
+        ctx.sample({"T": r["T"], "N": wire_to_int(r["N"]), "D": wire_to_int(r["D"]), "x": core.fval(r["x"]), "ovf": r["ovf0"], "product": core.fval(r["y"])})
+    ctx.layers["float_clause"] = {"instances": len(insts), "records_validated_by_TLC": nval, "configs": cfgs}
